@@ -317,6 +317,192 @@ fn multi_shapes() -> Vec<Shape> {
     v
 }
 
+// ---------------------------------------------------------------------------
+// stray replies: right ID, yet not the answer (and one that is)
+// ---------------------------------------------------------------------------
+
+/// Records of a reply that has no question section, as (ancount, nscount,
+/// arcount): simplest first.
+#[derive(Clone, Copy, Debug, PartialEq, Eq)]
+enum Recs {
+    /// (0,0,1): an OPT record
+    ArOpt,
+    /// (0,0,1): an A record
+    ArRec,
+    /// (1,0,0)
+    An,
+    /// (0,1,0): an NS record
+    Ns,
+    /// (1,0,1): an A record and an OPT record
+    AnAr,
+}
+
+/// A reply that carries the request's ID. All but `QCase` are NOT the answer
+/// by the property text (same ID and same question; only a reply whose four
+/// counts are all zero and whose RCODE is not NOERROR matches on the ID
+/// alone); `QCase` IS the answer (RFC 1035 2.3.3: names compare
+/// case-insensitively; RFC 1035 7.3 asks for a question section that
+/// "corresponds"); `Opcode` keeps ID, QR and question and differs only in the
+/// opcode, which the property text does not mention: see OPCODE_MISMATCH_IS_STRAY.
+#[derive(Clone, Copy, Debug, PartialEq, Eq)]
+enum Stray {
+    /// QR set, no question section, not header-only: RCODE x records
+    NoQ(u8, Recs),
+    /// the request itself echoed back: right question, QR clear, no records
+    Echo,
+    /// the request's question except for the type (AAAA), with an answer
+    QType,
+    /// the request's question except for the class (CH), with an answer
+    QClass,
+    /// the request's question with the name in upper case, with an answer: a legitimate answer
+    QCase,
+    /// two questions, the first being the request's, with an answer
+    TwoQ,
+    /// the request's question and an answer, QR set, but this OPCODE (4 = NOTIFY)
+    Opcode(u8),
+}
+
+/// RCODEs of the question-less family: NOERROR, FORMERR, SERVFAIL, REFUSED.
+const STRAY_RCODES: [u8; 4] = [0, 1, 2, 5];
+const STRAY_RECS: [Recs; 5] = [Recs::ArOpt, Recs::ArRec, Recs::An, Recs::Ns, Recs::AnAr];
+
+/// The property text ("same ID and same question") and RFC 1035 7.3 (match
+/// on the ID, then verify the question section) do not mention the opcode.
+/// With `false` a reply that differs from the genuine answer only in its
+/// opcode is offered by the environment, but the oracle demands neither that
+/// it is handed to the caller nor that it is discarded (what happens is
+/// counted); everything else (exactly-once, other callers unaffected) still
+/// applies. With `true` it is a stray reply like the others.
+const OPCODE_MISMATCH_IS_STRAY: bool = false;
+
+/// The whole alphabet, simplest first: 20 question-less shapes, then the
+/// six single shapes.
+fn all_strays() -> Vec<Stray> {
+    let mut v = Vec::new();
+    for rc in STRAY_RCODES {
+        for r in STRAY_RECS {
+            v.push(Stray::NoQ(rc, r));
+        }
+    }
+    v.extend_from_slice(&[Stray::Echo, Stray::QType, Stray::QClass, Stray::QCase, Stray::TwoQ, Stray::Opcode(4)]);
+    v
+}
+
+/// Offered once an execution already contains a reply from the full alphabet.
+fn rep_strays() -> Vec<Stray> {
+    vec![Stray::NoQ(2, Recs::ArOpt), Stray::NoQ(0, Recs::An), Stray::Echo, Stray::QCase, Stray::TwoQ]
+}
+
+impl Stray {
+    /// Class name used in violation signatures and counters.
+    fn family(&self) -> &'static str {
+        match self {
+            Stray::NoQ(0, _) => "no-question-noerror",
+            Stray::NoQ(_, Recs::ArOpt) => "no-question-error-with-opt-record",
+            Stray::NoQ(_, _) => "no-question-error-with-records",
+            Stray::Echo => "query-echoed-back",
+            Stray::QType => "question-type-differs",
+            Stray::QClass => "question-class-differs",
+            Stray::QCase => "question-name-case-differs",
+            Stray::TwoQ => "two-questions",
+            Stray::Opcode(_) => "opcode-differs",
+        }
+    }
+    fn label(&self) -> String {
+        match self {
+            Stray::NoQ(rc, r) => format!("no question, rcode {rc}, records {r:?}"),
+            o => format!("{o:?}"),
+        }
+    }
+}
+
+const A_REC_TAIL: [u8; 10] = [0, 1, 0, 1, 0, 0, 0, 60, 0, 4];
+
+/// Build the stray reply `s` for a request (caller `owner`, question `q`)
+/// under `id`. Every message ends in the marker 10.<owner>.<serial> like the
+/// genuine answers (except Echo, which is the request as written by
+/// `request_bytes`, and the NS-only shape, whose TTL carries the marker).
+fn mk_stray(id: u16, q: usize, s: Stray, owner: usize, serial: u16) -> Vec<u8> {
+    let marker = |v: &mut Vec<u8>| {
+        v.extend_from_slice(&[10, owner as u8]);
+        v.extend_from_slice(&serial.to_be_bytes());
+    };
+    let a_rec = |v: &mut Vec<u8>, name: &[u8]| {
+        v.extend_from_slice(name);
+        v.extend_from_slice(&A_REC_TAIL);
+        marker(v);
+    };
+    let opt_rec = |v: &mut Vec<u8>| {
+        // root, OPT, payload size 1232, ttl 0, rdlen 8: option 65001, length 4, marker
+        v.extend_from_slice(&[0, 0, 41, 0x04, 0xD0, 0, 0, 0, 0, 0, 8, 0xFD, 0xE9, 0, 4]);
+        marker(v);
+    };
+    let mut v = Vec::new();
+    v.extend_from_slice(&id.to_be_bytes());
+    match s {
+        Stray::Echo => {
+            let mut r = request_bytes(owner, q);
+            r[0..2].copy_from_slice(&id.to_be_bytes());
+            return r;
+        }
+        Stray::NoQ(rc, recs) => {
+            let (an, ns, ar): (u16, u16, u16) = match recs {
+                Recs::ArOpt | Recs::ArRec => (0, 0, 1),
+                Recs::An => (1, 0, 0),
+                Recs::Ns => (0, 1, 0),
+                Recs::AnAr => (1, 0, 1),
+            };
+            v.extend_from_slice(&(0x8180u16 | rc as u16).to_be_bytes());
+            for c in [0, an, ns, ar] {
+                v.extend_from_slice(&c.to_be_bytes());
+            }
+            match recs {
+                Recs::ArOpt => opt_rec(&mut v),
+                Recs::ArRec | Recs::An => a_rec(&mut v, QNAMES[q]),
+                Recs::Ns => {
+                    v.extend_from_slice(b"\x07example\x00");
+                    v.extend_from_slice(&[0, 2, 0, 1, 0, owner as u8]);
+                    v.extend_from_slice(&serial.to_be_bytes());
+                    v.extend_from_slice(&[0, 12]);
+                    v.extend_from_slice(b"\x02ns\x07example\x00");
+                }
+                Recs::AnAr => {
+                    a_rec(&mut v, QNAMES[q]);
+                    opt_rec(&mut v);
+                }
+            }
+        }
+        Stray::QType | Stray::QClass | Stray::QCase | Stray::TwoQ | Stray::Opcode(_) => {
+            let flags: u16 = match s {
+                Stray::Opcode(op) => 0x8180 | ((op as u16 & 0xF) << 11),
+                _ => 0x8180,
+            };
+            v.extend_from_slice(&flags.to_be_bytes());
+            let qd: u16 = if s == Stray::TwoQ { 2 } else { 1 };
+            for c in [qd, 1, 0, 0] {
+                v.extend_from_slice(&c.to_be_bytes());
+            }
+            let name: Vec<u8> = if s == Stray::QCase { QNAMES[q].to_ascii_uppercase() } else { QNAMES[q].to_vec() };
+            v.extend_from_slice(&name);
+            v.extend_from_slice(&match s {
+                Stray::QType => [0, 28, 0, 1],
+                Stray::QClass => [0, 1, 0, 3],
+                _ => [0, 1, 0, 1],
+            });
+            if s == Stray::TwoQ {
+                v.extend_from_slice(&qwire(2));
+            }
+            a_rec(&mut v, &[0xC0, 0x0C]);
+        }
+    }
+    v
+}
+
+/// A reply whose handling the oracle leaves open (see OPCODE_MISMATCH_IS_STRAY).
+fn neutral(bytes: &[u8]) -> bool {
+    !OPCODE_MISMATCH_IS_STRAY && bytes.len() >= 12 && bytes[2] & 0x78 != 0
+}
+
 fn framed(msg: &[u8]) -> Vec<u8> {
     let mut v = (msg.len() as u16).to_be_bytes().to_vec();
     v.extend_from_slice(msg);
@@ -340,6 +526,9 @@ fn answers_opt(bytes: &[u8], ids: &[u16], q: usize, require_qr: bool) -> Result<
     }
     if require_qr && m.flags & 0x8000 == 0 {
         return Err("qr-clear");
+    }
+    if OPCODE_MISMATCH_IS_STRAY && m.flags & 0x7800 != 0 {
+        return Err("opcode-mismatch");
     }
     if m.flags & 0x000F != 0 && m.counts == [0, 0, 0, 0] {
         return Ok(());
@@ -644,6 +833,9 @@ struct Global {
     all_cuts: AtomicBool,
     /// offer the full reply grammar (otherwise the three classic non-answers)
     full_shapes: AtomicBool,
+    /// the stray-reply pass: the menus offer the stray alphabet at every
+    /// delivery point next to a reduced set of the classic deviations
+    stray_mode: AtomicBool,
     stats: Stats,       // counters + samples + distinct non-trivial cases
     states: Stats,      // distinct quiescent states
     transitions: AtomicU64,
@@ -651,7 +843,22 @@ struct Global {
     verbose: bool,
     /// the 8 executions (>= 2 deviations) with the smallest case hash
     samples: Mutex<BTreeMap<u64, Value>>,
+    /// largest key in `samples` once it holds 8 entries
+    sample_threshold: AtomicU64,
     wd: Watchdog,
+}
+
+std::thread_local! {
+    /// Counters of the executions run on this thread since the last flush
+    /// (merging into the global map per execution serialises the workers).
+    static LOCAL_COUNTS: std::cell::RefCell<BTreeMap<String, u64>> = const { std::cell::RefCell::new(BTreeMap::new()) };
+}
+
+fn flush_local_counts(g: &Global) {
+    let m = LOCAL_COUNTS.with(|c| std::mem::take(&mut *c.borrow_mut()));
+    if !m.is_empty() {
+        g.stats.merge_counts(&m);
+    }
 }
 
 #[derive(Clone, Debug, PartialEq, Eq)]
@@ -681,6 +888,8 @@ struct Core<'a> {
     g: &'a Global,
     tname: &'static str,
     cfg: Value,
+    /// `cfg` serialised (used in hash keys)
+    cfg_str: String,
     ch: Arc<Mutex<Chooser>>,
     current: Arc<Mutex<Option<usize>>>,
     log: Vec<String>,
@@ -712,6 +921,14 @@ struct Core<'a> {
     last_traffic: Vec<Option<Instant>>,
     /// 0 = within budget, 1 = known-class lateness reported, 2 = lateness reported
     budget_stage: Vec<u8>,
+    /// every stray reply produced so far: (bytes, family, description)
+    stray_msgs: Vec<(Vec<u8>, &'static str, String)>,
+    /// replies taken from the full stray alphabet so far in this execution
+    strays_sent: usize,
+    /// (caller, what arrived) a datagram that is not the answer has been
+    /// delivered to this caller's socket: at the next quiescence the request
+    /// must still be pending (it is neither completed nor failed by it)
+    still_pending: Vec<(usize, String)>,
 }
 
 fn err_class(e: &Error) -> String {
@@ -727,6 +944,7 @@ impl<'a> Core<'a> {
         Core {
             g,
             tname,
+            cfg_str: cfg.to_string(),
             cfg,
             ch,
             current: Arc::new(Mutex::new(None)),
@@ -752,7 +970,32 @@ impl<'a> Core<'a> {
             extra: None,
             last_traffic: vec![None; plan.len()],
             budget_stage: vec![0; plan.len()],
+            stray_msgs: Vec::new(),
+            strays_sent: 0,
+            still_pending: Vec::new(),
         }
+    }
+    fn stray_mode(&self) -> bool {
+        self.g.stray_mode.load(Ordering::Relaxed)
+    }
+    /// The stray replies on offer at this point of the execution: the full
+    /// alphabet until one of them has been sent, then the representatives.
+    fn stray_menu(&self) -> Vec<Stray> {
+        if self.strays_sent == 0 {
+            all_strays()
+        } else {
+            rep_strays()
+        }
+    }
+    /// Build stray reply `s` and remember it.
+    fn stray(&mut self, id: u16, q: usize, s: Stray, owner: usize) -> Vec<u8> {
+        let sn = self.next_serial();
+        let msg = mk_stray(id, q, s, owner, sn);
+        self.strays_sent += 1;
+        self.stray_msgs.push((msg.clone(), s.family(), s.label()));
+        let k = format!("stray.sent.{}", s.family());
+        self.count(&k);
+        msg
     }
     fn choose(&self, n: usize, label: &'static str) -> usize {
         self.ch.lock().unwrap().choose(n, label)
@@ -772,7 +1015,7 @@ impl<'a> Core<'a> {
     }
     fn violate(&mut self, sig: String, what: String) {
         let choices = self.ch.lock().unwrap().choices();
-        let case = json!({"transport": self.tname, "cfg": self.cfg, "choices": choices, "all_cuts": self.g.all_cuts.load(Ordering::Relaxed), "full_shapes": self.g.full_shapes.load(Ordering::Relaxed), "log": self.log});
+        let case = json!({"transport": self.tname, "cfg": self.cfg, "choices": choices, "all_cuts": self.g.all_cuts.load(Ordering::Relaxed), "full_shapes": self.g.full_shapes.load(Ordering::Relaxed), "stray_mode": self.stray_mode(), "log": self.log});
         if self.g.verbose {
             println!("  !! {sig}: {what}");
         }
@@ -830,11 +1073,22 @@ impl<'a> Core<'a> {
                     self.deferred_id.push((i, id));
                     self.count("ok-before-request-on-wire(id check deferred)");
                 }
+                let stray = self.stray_msgs.iter().find(|(m, _, _)| m == b).map(|(_, f, l)| (*f, l.clone()));
+                if let Some((fam, _)) = &stray {
+                    let k = format!("stray.handed-to-caller.{fam}");
+                    self.count(&k);
+                }
                 if let Err(why) = answers_opt(b, &ids, self.reqs[i].q, !synthesized) {
-                    self.violate(
-                        format!("C15|{}|ok-response|{}", self.tname, why),
-                        format!("request {i} (question {}, wire ids {:?}) was handed {} (produced for caller {owner}): {why}", self.reqs[i].q, ids, hex(b)),
-                    );
+                    match stray {
+                        Some((fam, label)) => self.violate(
+                            format!("C15|{}|stray-reply-accepted|{fam}|{why}", self.tname),
+                            format!("request {i} (question {}, wire ids {:?}) was handed the stray reply [{label}] {} as its answer: {why}", self.reqs[i].q, ids, hex(b)),
+                        ),
+                        None => self.violate(
+                            format!("C15|{}|ok-response|{}", self.tname, why),
+                            format!("request {i} (question {}, wire ids {:?}) was handed {} (produced for caller {owner}): {why}", self.reqs[i].q, ids, hex(b)),
+                        ),
+                    }
                 }
                 if self.tname == "dgram_stream" {
                     let udp = self.delivered.iter().any(|d| &d.bytes == b && d.udp);
@@ -924,6 +1178,20 @@ impl<'a> Core<'a> {
     }
 
     fn check_expect(&mut self) {
+        for (i, what) in std::mem::take(&mut self.still_pending) {
+            if self.reqs[i].cancelled {
+                continue;
+            }
+            match self.reqs[i].result.clone() {
+                None => self.count("stray-datagram.request-still-pending"),
+                // an Ok is judged by complete()
+                Some(Res::Ok(_)) => self.count("stray-datagram.request-completed-ok"),
+                Some(Res::Err(e)) => self.violate(
+                    format!("C15|{}|stray-datagram|request-failed-instead-of-listening-on|{e}", self.tname),
+                    format!("request {i}: a datagram that is not its answer ({what}) arrived before the read timeout and the request failed with Err({e}) instead of waiting for the answer"),
+                ),
+            }
+        }
         let ex = std::mem::take(&mut self.expect);
         for (i, bytes) in ex {
             if self.reqs[i].cancelled {
@@ -1102,7 +1370,7 @@ impl<'a> Core<'a> {
     }
 
     fn state(&mut self, extra: &str) {
-        let s = format!("{}|{}|{}|{}", self.tname, self.cfg, self.req_status(), extra);
+        let s = format!("{}|{}|{}|{}", self.tname, self.cfg_str, self.req_status(), extra);
         self.states.push(fnv(s.as_bytes()));
     }
 
@@ -1127,16 +1395,28 @@ impl<'a> Core<'a> {
         g.states.distinct_many(self.states.iter().copied());
         let ch = self.ch.lock().unwrap();
         let dev = ch.deviations();
-        let outcome = format!("{}|{}|{}", self.tname, self.cfg, self.req_status());
+        let outcome = format!("{}|{}|{}", self.tname, self.cfg_str, self.req_status());
         g.outcomes.distinct(fnv(outcome.as_bytes()));
         if dev > 0 {
-            g.stats.distinct(fnv(format!("{}|{}|{}|{}|{:?}", self.tname, self.cfg, g.all_cuts.load(Ordering::Relaxed), g.full_shapes.load(Ordering::Relaxed), ch.choices()).as_bytes()));
+            g.stats.distinct(fnv(format!("{}|{}|{}|{}|{}|{:?}", self.tname, self.cfg_str, g.all_cuts.load(Ordering::Relaxed), g.full_shapes.load(Ordering::Relaxed), g.stray_mode.load(Ordering::Relaxed), ch.choices()).as_bytes()));
         }
         self.counters.insert(format!("{}.executions", self.tname), 1);
         *self.counters.entry(format!("{}.deviations.{dev}", self.tname)).or_insert(0) += 1;
-        g.stats.merge_counts(&self.counters);
+        LOCAL_COUNTS.with(|c| {
+            let mut c = c.borrow_mut();
+            for (k, v) in &self.counters {
+                match c.get_mut(k) {
+                    Some(x) => *x += *v,
+                    None => {
+                        c.insert(k.clone(), *v);
+                    }
+                }
+            }
+        });
         if dev >= 2 {
-            let key = fnv(format!("{}|{}|{:?}|{}|{}", self.tname, self.cfg, ch.choices(), g.all_cuts.load(Ordering::Relaxed), g.full_shapes.load(Ordering::Relaxed)).as_bytes());
+            let key = fnv(format!("{}|{}|{:?}|{}|{}|{}", self.tname, self.cfg_str, ch.choices(), g.all_cuts.load(Ordering::Relaxed), g.full_shapes.load(Ordering::Relaxed), g.stray_mode.load(Ordering::Relaxed)).as_bytes());
+            // (the threshold keeps the global lock off the common path)
+            if key < g.sample_threshold.load(Ordering::Relaxed) {
             let mut sm = g.samples.lock().unwrap();
             if sm.len() < 8 || sm.keys().next_back().map(|k| key < *k).unwrap_or(true) {
                 // logs of the datagram transports contain the random request IDs: leave them out
@@ -1146,6 +1426,10 @@ impl<'a> Core<'a> {
                     let last = *sm.keys().next_back().unwrap();
                     sm.remove(&last);
                 }
+                if sm.len() == 8 {
+                    g.sample_threshold.store(*sm.keys().next_back().unwrap(), Ordering::Relaxed);
+                }
+            }
             }
         }
     }
@@ -1203,6 +1487,11 @@ enum SAct {
     StaleErr(usize, u8),
     WrongId(usize, u16),      // content of entry, other ID
     Stale(usize),             // closed entry: re-sent / late answer with its ID
+    /// open entry: a stray reply under its ID (before the genuine answer)
+    Stray(usize, Stray),
+    /// closed entry: a stray reply under its ID (after the genuine answer; the
+    /// slot is free or has been recycled for another request)
+    StaleStray(usize, Stray),
     Short(usize),             // frame of this many octets (<12)
     Split(usize, usize),      // oldest open entry's answer, first k octets now, rest later
     Split2(usize, usize, usize), // two answers back to back, cut at k
@@ -1237,8 +1526,8 @@ fn account_frame(core: &mut Core, entries: &mut [Entry], conn: usize, healthy: b
     if let Some(e) = entries.iter_mut().find(|e| e.open && e.conn == conn && e.id == id) {
         e.open = false;
         let r = e.req;
-        if answers(msg, &[id], e.q).is_err() {
-            core.excused[r] = true; // a non-answer under its ID
+        if answers(msg, &[id], e.q).is_err() || neutral(msg) {
+            core.excused[r] = true; // a non-answer under its ID (or one the oracle leaves open)
         } else if healthy && core.pending(r) {
             core.expect.push((r, msg.to_vec()));
         }
@@ -1252,7 +1541,8 @@ async fn run_stream(g: &Global, cfg: &StreamCfg, ch: Arc<Mutex<Chooser>>) {
     let mut core = Core::new(g, "stream", cfg.json(), ch.clone(), &cfg.plan);
     core.edns = cfg.edns;
     let st = Arc::new(Mutex::new(StreamState::default()));
-    let mock = MockStream { st: st.clone(), ch: ch.clone(), wf: WFaults { enabled: true, all_cuts: g.all_cuts.load(Ordering::Relaxed) } };
+    let stray_mode = core.stray_mode();
+    let mock = MockStream { st: st.clone(), ch: ch.clone(), wf: WFaults { enabled: !stray_mode, all_cuts: g.all_cuts.load(Ordering::Relaxed) } };
     let mut sc = stream::Config::new();
     let rt = Duration::from_millis(cfg.rt_ms);
     let idle = Duration::from_millis(cfg.idle_ms);
@@ -1368,7 +1658,53 @@ async fn run_stream(g: &Global, cfg: &StreamCfg, ch: Arc<Mutex<Chooser>>) {
         if next_unsub.is_some() && !submit_now {
             menu.push(SAct::Submit);
         }
-        if healthy {
+        if healthy && stray_mode {
+            // The stray-reply pass: reordering, the legitimate header-only
+            // error, EOF, time and cancellation stay; every stray reply is
+            // offered under the ID of every open request (before its genuine
+            // answer; three or more callers: the oldest open one) and under
+            // the ID of the most recently closed ones (after their genuine
+            // answer: the slot is free, or already recycled for a later
+            // request, which it then meets).
+            for &e in &open {
+                if !(deliver_default && Some(e) == default_target) {
+                    menu.push(SAct::Deliver(e, RKind::Answer));
+                }
+            }
+            let strays = core.stray_menu();
+            let offered_for = |e: usize| cfg.plan.len() <= 2 || e == open[0];
+            for &e in &open {
+                menu.push(SAct::Deliver(e, RKind::HdrErr));
+                if offered_for(e) {
+                    for s in &strays {
+                        menu.push(SAct::Stray(e, *s));
+                    }
+                }
+            }
+            let n_closed = if cfg.plan.len() <= 2 { 2 } else { 1 };
+            let closed: Vec<usize> = (0..entries.len()).rev().filter(|i| !entries[*i].open).take(n_closed).collect();
+            for c in closed {
+                // same ID and same question as an open request that gets the strays anyway
+                if open.iter().any(|o| entries[*o].id == entries[c].id && entries[*o].q == entries[c].q && offered_for(*o)) {
+                    continue;
+                }
+                for s in &strays {
+                    menu.push(SAct::StaleStray(c, *s));
+                }
+            }
+            menu.push(SAct::Eof);
+            let mut ds: Vec<u64> = vec![cfg.rt_ms - 1, cfg.rt_ms + 1];
+            if cfg.idle_ms > 1 {
+                ds.extend_from_slice(&[cfg.idle_ms - 1, cfg.idle_ms + 1]);
+            }
+            ds.sort();
+            ds.dedup();
+            for d in ds {
+                if default_tick != Some(d) && d != TICK_SKIP && d != cfg.rt_ms {
+                    menu.push(SAct::Tick(d));
+                }
+            }
+        } else if healthy {
             for &e in &open {
                 if !(deliver_default && Some(e) == default_target) {
                     menu.push(SAct::Deliver(e, RKind::Answer));
@@ -1550,6 +1886,19 @@ async fn run_stream(g: &Global, cfg: &StreamCfg, ch: Arc<Mutex<Chooser>>) {
                 let msg = mk_resp(en.id, en.q, RKind::Answer, en.req, s);
                 core.note(format!("peer re-sends / sends late an answer for closed caller {} id {}", en.req, en.id));
                 core.count("action.deliver.Stale");
+                feed(&st, framed(&msg));
+                account_frame(&mut core, &mut entries, 0, healthy, &msg, false);
+            }
+            SAct::Stray(e, sy) | SAct::StaleStray(e, sy) => {
+                flush_tail(&mut core, &mut peer, &mut entries, healthy);
+                let en = entries[e].clone();
+                let msg = core.stray(en.id, en.q, sy, en.req);
+                let stale = matches!(act, SAct::StaleStray(..));
+                core.note(format!("peer sends under id {} ({} caller {}) the stray reply [{}]", en.id, if stale { "already answered" } else { "open request of" }, en.req, sy.label()));
+                core.count(if stale { "action.deliver.stray.after-the-answer" } else { "action.deliver.stray.before-the-answer" });
+                if stale && entries.iter().any(|o| o.open && o.id == en.id) {
+                    core.count("action.deliver.stray.meets-recycled-slot");
+                }
                 feed(&st, framed(&msg));
                 account_frame(&mut core, &mut entries, 0, healthy, &msg, false);
             }
@@ -1829,6 +2178,8 @@ enum DAct {
     WrongId(usize),
     /// reply of the given shape under the right (true) or a wrong (false) ID
     Shaped(usize, Shape, bool),
+    /// a stray reply under the ID of the current transmission
+    Stray(usize, Stray),
     Garbage(usize, usize), // length
     Late(usize),
     Cross(usize, usize), // to waiting[a]'s socket, the reply for waiting[b]
@@ -1888,7 +2239,8 @@ fn dg_learn(core: &mut Core, sh: &Arc<Mutex<DgShared>>, learnt: &mut Vec<bool>, 
 async fn run_dgram(g: &Global, cfg: &DgramCfg, ch: Arc<Mutex<Chooser>>) {
     let mut core = Core::new(g, "dgram", cfg.json(), ch.clone(), &cfg.plan);
     let sh = Arc::new(Mutex::new(DgShared::default()));
-    let connect = DgConnect { sh: sh.clone(), ch: ch.clone(), current: core.current.clone(), faults: true };
+    let stray_mode = core.stray_mode();
+    let connect = DgConnect { sh: sh.clone(), ch: ch.clone(), current: core.current.clone(), faults: !stray_mode };
     let mut dc = dgram::Config::new();
     dc.set_read_timeout(DG_READ_TIMEOUT);
     dc.set_max_retries(cfg.retries);
@@ -1939,7 +2291,35 @@ async fn run_dgram(g: &Global, cfg: &DgramCfg, ch: Arc<Mutex<Chooser>>) {
             DAct::Tick(h) => Some(h),
             _ => None,
         };
+        // The stray-reply pass: the genuine answer, the legitimate header-only
+        // error, a wrong ID, a late answer to the previous transmission, time
+        // and cancellation stay; every stray reply is offered on the socket of
+        // every waiting caller (three callers: the first waiting one) under the
+        // ID of its current transmission: the first one or, after time has
+        // passed, a retransmission.
+        let strays = if stray_mode { core.stray_menu() } else { Vec::new() };
         for (wi, w) in waiting.iter().enumerate() {
+            if !stray_mode {
+                break;
+            }
+            if !(next_unsub.is_none() && !cfg.silent && wi == 0) {
+                menu.push(DAct::Reply(wi, RKind::Answer));
+            }
+            menu.push(DAct::Reply(wi, RKind::HdrErr));
+            menu.push(DAct::WrongId(wi));
+            if cfg.plan.len() <= 2 || wi == 0 {
+                for sy in &strays {
+                    menu.push(DAct::Stray(wi, *sy));
+                }
+            }
+            if w.prev_id.is_some() {
+                menu.push(DAct::Late(wi));
+            }
+        }
+        for (wi, w) in waiting.iter().enumerate() {
+            if stray_mode {
+                break;
+            }
             if !(next_unsub.is_none() && !cfg.silent && wi == 0) {
                 menu.push(DAct::Reply(wi, RKind::Answer));
             }
@@ -1995,11 +2375,20 @@ async fn run_dgram(g: &Global, cfg: &DgramCfg, ch: Arc<Mutex<Chooser>>) {
             core.delivered.push(Delivered { bytes: msg.clone(), udp: true });
             // a datagram longer than the receive buffer arrives cut
             let cut = cfg.recv_size.map(|n| msg.len() > n).unwrap_or(false);
-            if !cut && msg.len() >= 12 && core.pending(w.req) && answers(&msg, &[w.id], w.q).is_ok() {
+            let is_answer = !cut && msg.len() >= 12 && answers(&msg, &[w.id], w.q).is_ok();
+            if neutral(&msg) && is_answer {
+                // the oracle leaves open whether this one is accepted
+                core.excused[w.req] = true;
+            } else if is_answer && core.pending(w.req) {
                 core.expect.push((w.req, msg.clone()));
             } else {
-                // stray / malformed datagram: failing the request is within the property
+                // stray / malformed datagram: it must neither complete nor fail
+                // the request, the transport goes on listening (an Err later,
+                // when the time is up, is excused)
                 core.excused[w.req] = true;
+                if core.pending(w.req) {
+                    core.still_pending.push((w.req, what.clone()));
+                }
             }
             dg_feed(&sh, w.sock, Ok(msg));
         };
@@ -2033,6 +2422,12 @@ async fn run_dgram(g: &Global, cfg: &DgramCfg, ch: Arc<Mutex<Chooser>>) {
                     mk_shape(id, w.q, shp, w.req, sn),
                     format!("{} id, rcode {}, question {:?}, tc {}", if right_id { "right" } else { "wrong" }, shp.rcode, shp.qsel, shp.tc),
                 );
+            }
+            DAct::Stray(wi, sy) => {
+                let w = waiting[wi].clone();
+                let msg = core.stray(w.id, w.q, sy, w.req);
+                core.count(if w.prev_id.is_some() { "action.reply.stray.during-a-retransmission" } else { "action.reply.stray.first-transmission" });
+                deliver(&mut core, wi, msg, format!("stray reply [{}]", sy.label()));
             }
             DAct::Garbage(wi, l) => {
                 core.count("action.reply.Garbage");
@@ -2211,6 +2606,11 @@ enum MAct {
     /// error replies under the right ID: other / empty question, TC 0/1
     UdpShaped(usize, Shape),
     TcpShaped(usize, Shape),
+    /// stray replies (stray pass): on the datagram socket of a waiting caller,
+    /// under the ID of an open stream request, under the ID of a closed one
+    UdpStray(usize, Stray),
+    TcpStray(usize, Stray),
+    TcpStaleStray(usize, Stray),
     UdpGarbage(usize),
     UdpRecvErr(usize),
     Tcp(usize, RKind),
@@ -2382,6 +2782,7 @@ async fn run_multi(g: &Global, cfg: &MultiCfg, ch: Arc<Mutex<Chooser>>) {
         let next_unsub = (0..core.reqs.len()).find(|i| !core.reqs[*i].submitted);
         let any_pending = (0..core.reqs.len()).any(|i| core.pending(i));
         let udp_default = if cfg.udp_tc { RKind::Tc } else { RKind::Answer };
+        let strays = if core.stray_mode() { core.stray_menu() } else { Vec::new() };
         let mut menu: Vec<MAct> = Vec::new();
         let default_kind: u8;
         let hold_submit = cfg.gap && next_unsub == Some(1) && (!waiting.is_empty() || !open.is_empty() || !gap_done);
@@ -2427,6 +2828,9 @@ async fn run_multi(g: &Global, cfg: &MultiCfg, ch: Arc<Mutex<Chooser>>) {
             }
             menu.push(MAct::UdpGarbage(wi));
             menu.push(MAct::UdpRecvErr(wi));
+            for sy in &strays {
+                menu.push(MAct::UdpStray(wi, *sy));
+            }
         }
         for &e in &open {
             if !(default_kind == 2 && e == open[0]) {
@@ -2440,9 +2844,17 @@ async fn run_multi(g: &Global, cfg: &MultiCfg, ch: Arc<Mutex<Chooser>>) {
             }
             menu.push(MAct::Tcp(e, RKind::HdrErr));
             menu.push(MAct::Tcp(e, RKind::AnswerTc));
+            for sy in &strays {
+                menu.push(MAct::TcpStray(e, *sy));
+            }
         }
         if let Some(c) = (0..entries.len()).rev().find(|i| !entries[*i].open && live(entries[*i].conn)) {
             menu.push(MAct::TcpStale(c));
+            if !open.iter().any(|o| entries[*o].conn == entries[c].conn && entries[*o].id == entries[c].id && entries[*o].q == entries[c].q) {
+                for sy in &strays {
+                    menu.push(MAct::TcpStaleStray(c, *sy));
+                }
+            }
         }
         for ci in 0..conns.len() {
             if live(ci) {
@@ -2524,6 +2936,32 @@ async fn run_multi(g: &Global, cfg: &MultiCfg, ch: Arc<Mutex<Chooser>>) {
                 let msg = mk_shape(en.id, en.q, shp, en.req, sn);
                 core.note(format!("peer answers caller {} id {} on stream #{} with rcode {} question {:?}", en.req, en.id, en.conn, shp.rcode, shp.qsel));
                 core.count("action.tcp.Shaped");
+                feed(&conns[en.conn], framed(&msg));
+                account_frame(&mut core, &mut entries, en.conn, tr_alive, &msg, false);
+            }
+            MAct::UdpStray(wi, sy) => {
+                let w = waiting[wi].clone();
+                let msg = core.stray(w.id, w.q, sy, w.req);
+                core.note(format!("peer -> caller {} over datagram: stray reply [{}]", w.req, sy.label()));
+                core.count(if w.prev_id.is_some() { "action.udp.stray.during-a-retransmission" } else { "action.udp.stray.first-transmission" });
+                core.delivered.push(Delivered { bytes: msg.clone(), udp: true });
+                if neutral(&msg) {
+                    // left open by the oracle
+                } else if answers(&msg, &[w.id], w.q).is_ok() {
+                    if core.pending(w.req) {
+                        core.expect.push((w.req, msg.clone()));
+                    }
+                } else if core.pending(w.req) {
+                    core.still_pending.push((w.req, format!("stray reply [{}]", sy.label())));
+                }
+                dg_feed(&dsh, w.sock, Ok(msg));
+            }
+            MAct::TcpStray(e, sy) | MAct::TcpStaleStray(e, sy) => {
+                let en = entries[e].clone();
+                let msg = core.stray(en.id, en.q, sy, en.req);
+                let stale = matches!(act, MAct::TcpStaleStray(..));
+                core.note(format!("peer sends on stream #{} under id {} ({} caller {}) the stray reply [{}]", en.conn, en.id, if stale { "already answered" } else { "open request of" }, en.req, sy.label()));
+                core.count(if stale { "action.tcp.stray.after-the-answer" } else { "action.tcp.stray.before-the-answer" });
                 feed(&conns[en.conn], framed(&msg));
                 account_frame(&mut core, &mut entries, en.conn, tr_alive, &msg, false);
             }
@@ -3116,6 +3554,315 @@ async fn run_combo(g: &Global, cfg: &ComboCfg, ch: Arc<Mutex<Chooser>>) {
 }
 
 // ---------------------------------------------------------------------------
+// redundant and load_balancer over REAL datagram / stream transports
+// ---------------------------------------------------------------------------
+
+/// redundant / load_balancer with two upstreams that are real
+/// `dgram::Connection`s (each on its own mock sockets) or real
+/// `stream::Connection`s (each on its own mock stream): what the mock peers
+/// send travels through the lower transport's matching and then through the
+/// upper transport to the caller. Run in the stray-reply pass only.
+#[derive(Clone, Debug)]
+struct RealCfg {
+    lb: bool,
+    plan: Vec<usize>,
+    stream_ups: bool,
+    defer: bool,
+    udp_retries: u8,
+    /// the peers do not answer by default: time passes instead (retransmissions,
+    /// the second upstream, the timeouts of the lower transports all happen by default)
+    silent: bool,
+}
+impl RealCfg {
+    fn json(&self) -> Value {
+        json!({"real_upstreams": if self.stream_ups { "2 x stream::Connection" } else { "2 x dgram::Connection" }, "plan": self.plan, "defer_transport_error": self.defer, "udp_max_retries": self.udp_retries, "peers_silent_by_default": self.silent})
+    }
+}
+
+const REAL_STREAM_RT: Duration = Duration::from_millis(2100);
+
+#[derive(Clone, Debug)]
+enum RAct {
+    Submit,
+    /// upstream, index into its waiting callers, reply
+    Udp(usize, usize, RKind),
+    UdpStray(usize, usize, Stray),
+    /// index into entries, reply
+    Tcp(usize, RKind),
+    TcpStray(usize, Stray),
+    TcpStaleStray(usize, Stray),
+    Tick,
+    Cancel(usize),
+    Finish,
+}
+
+async fn run_real(g: &Global, cfg: &RealCfg, ch: Arc<Mutex<Chooser>>) {
+    use domain::net::client::{load_balancer, redundant};
+    let tname = if cfg.lb { "load_balancer" } else { "redundant" };
+    let mut core = Core::new(g, tname, cfg.json(), ch.clone(), &cfg.plan);
+    const N_UP: usize = 2;
+    let dsh: Vec<Arc<Mutex<DgShared>>> = (0..N_UP).map(|_| Arc::new(Mutex::new(DgShared::default()))).collect();
+    let sst: Vec<Arc<Mutex<StreamState>>> = (0..N_UP).map(|_| Arc::new(Mutex::new(StreamState::default()))).collect();
+    let s_alive: Vec<Arc<AtomicBool>> = (0..N_UP).map(|_| Arc::new(AtomicBool::new(true))).collect();
+    let mut runs: Vec<Pin<Box<dyn Future<Output = ()>>>> = Vec::new();
+    let mut ups: Vec<Box<dyn SendRequest<Rq> + Send + Sync>> = Vec::new();
+    for u in 0..N_UP {
+        if cfg.stream_ups {
+            let mock = MockStream { st: sst[u].clone(), ch: ch.clone(), wf: WFaults { enabled: false, all_cuts: false } };
+            let mut sc = stream::Config::new();
+            sc.set_response_timeout(REAL_STREAM_RT);
+            sc.set_idle_timeout(Duration::from_secs(600));
+            let (c, t) = stream::Connection::<Rq, RqM>::with_config(mock, sc);
+            let fl = s_alive[u].clone();
+            runs.push(Box::pin(async move {
+                t.run().await;
+                fl.store(false, Ordering::SeqCst);
+            }));
+            ups.push(Box::new(c));
+        } else {
+            let dgc = DgConnect { sh: dsh[u].clone(), ch: ch.clone(), current: core.current.clone(), faults: false };
+            let mut dc = dgram::Config::new();
+            dc.set_read_timeout(DG_READ_TIMEOUT);
+            dc.set_max_retries(cfg.udp_retries);
+            ups.push(Box::new(dgram::Connection::with_config(dgc, dc)));
+        }
+    }
+    let conn: Box<dyn SendRequest<Rq>>;
+    let mut tr: Option<Slot<()>>;
+    if cfg.lb {
+        let mut c = load_balancer::Config::default();
+        c.set_defer_transport_error(cfg.defer);
+        let (cn, t) = load_balancer::Connection::<Rq>::with_config(c);
+        runs.push(Box::pin(t.run()));
+        tr = Some(Slot::new(async move {
+            futures_util::future::join_all(runs).await;
+        }));
+        for up in ups {
+            let c2 = cn.clone();
+            drive_setup(&mut core, &mut tr, async move { c2.add("up", &load_balancer::ConnConfig::new(), up).await });
+        }
+        conn = Box::new(cn);
+    } else {
+        let mut c = redundant::Config::default();
+        c.set_defer_transport_error(cfg.defer);
+        let (cn, t) = redundant::Connection::<Rq>::with_config(c);
+        runs.push(Box::pin(t.run()));
+        tr = Some(Slot::new(async move {
+            futures_util::future::join_all(runs).await;
+        }));
+        for up in ups {
+            let c2 = cn.clone();
+            drive_setup(&mut core, &mut tr, async move { c2.add(up).await });
+        }
+        conn = Box::new(cn);
+    }
+    let mut conn = Some(conn);
+    let mut learnt: Vec<Vec<bool>> = vec![Vec::new(); N_UP];
+    let mut entries: Vec<Entry> = Vec::new();
+    let mut ticks = 0;
+
+    for _step in 0..64 {
+        core.quiesce(&mut tr);
+        if core.aborted {
+            break;
+        }
+        for u in 0..N_UP {
+            if cfg.stream_ups {
+                for f in take_frames(&sst[u]) {
+                    let (idx, id, q) = parse_request(&f, "real-upstream stream");
+                    if idx >= core.reqs.len() || core.reqs[idx].q != q {
+                        eprintln!("MACHINERY: real upstream: frame does not belong to any caller");
+                        std::process::exit(2);
+                    }
+                    core.learn_id(idx, id);
+                    let alive = s_alive[u].load(Ordering::SeqCst);
+                    entries.push(Entry { conn: u, req: idx, id, q, open: alive });
+                    core.note(format!("upstream {u} (stream) sees the request of caller {idx} with id {id}"));
+                    core.count(&format!("upstream-call.{u}"));
+                }
+                if !s_alive[u].load(Ordering::SeqCst) {
+                    for e in entries.iter_mut().filter(|e| e.conn == u) {
+                        e.open = false;
+                    }
+                    core.excuse_all = true;
+                }
+            } else {
+                let before = core.reqs.iter().map(|r| r.ids.len()).sum::<usize>();
+                dg_learn(&mut core, &dsh[u], &mut learnt[u], 0);
+                let after = core.reqs.iter().map(|r| r.ids.len()).sum::<usize>();
+                for _ in before..after {
+                    core.count(&format!("upstream-call.{u}"));
+                }
+            }
+        }
+        // a request whose caller is gone is closed for the peer as well
+        for e in entries.iter_mut() {
+            if e.open && !core.pending(e.req) {
+                e.open = false;
+            }
+        }
+        core.check_spurious();
+        let waiting: Vec<Vec<DgWait>> = (0..N_UP).map(|u| if cfg.stream_ups { Vec::new() } else { dg_waiting(&dsh[u]) }).collect();
+        let open: Vec<usize> = (0..entries.len()).filter(|i| entries[*i].open).collect();
+        let ex = format!(
+            "{:?}|{:?}",
+            waiting.iter().map(|w| w.iter().map(|x| (x.req, x.prev_id.is_some())).collect::<Vec<_>>()).collect::<Vec<_>>(),
+            entries.iter().map(|e| (e.conn, e.req, e.id, e.open)).collect::<Vec<_>>()
+        );
+        core.state(&ex);
+
+        let next_unsub = (0..core.reqs.len()).find(|i| !core.reqs[*i].submitted);
+        let any_pending = (0..core.reqs.len()).any(|i| core.pending(i));
+        let first_wait: Option<(usize, usize)> = (0..N_UP).find(|u| !waiting[*u].is_empty()).map(|u| (u, 0));
+        let mut menu: Vec<RAct> = Vec::new();
+        if next_unsub.is_some() {
+            menu.push(RAct::Submit);
+        } else if cfg.silent && any_pending {
+            menu.push(RAct::Tick);
+        } else if let Some((u, k)) = first_wait {
+            menu.push(RAct::Udp(u, k, RKind::Answer));
+        } else if let Some(&e) = open.first() {
+            menu.push(RAct::Tcp(e, RKind::Answer));
+        } else if any_pending {
+            menu.push(RAct::Tick);
+        } else {
+            menu.push(RAct::Finish);
+        }
+        let default_is_tick = matches!(menu[0], RAct::Tick);
+        let strays = core.stray_menu();
+        for u in 0..N_UP {
+            for k in 0..waiting[u].len() {
+                if !(matches!(menu[0], RAct::Udp(..)) && first_wait == Some((u, k))) {
+                    menu.push(RAct::Udp(u, k, RKind::Answer));
+                }
+                menu.push(RAct::Udp(u, k, RKind::HdrErr));
+                for sy in &strays {
+                    menu.push(RAct::UdpStray(u, k, *sy));
+                }
+            }
+        }
+        for &e in &open {
+            if !(matches!(menu[0], RAct::Tcp(..)) && e == open[0]) {
+                menu.push(RAct::Tcp(e, RKind::Answer));
+            }
+            menu.push(RAct::Tcp(e, RKind::HdrErr));
+            for sy in &strays {
+                menu.push(RAct::TcpStray(e, *sy));
+            }
+        }
+        for u in 0..N_UP {
+            if !cfg.stream_ups || !s_alive[u].load(Ordering::SeqCst) {
+                continue;
+            }
+            // after the genuine answer: the most recently closed request of this connection
+            if let Some(c) = (0..entries.len()).rev().find(|i| !entries[*i].open && entries[*i].conn == u) {
+                if !open.iter().any(|o| entries[*o].conn == u && entries[*o].id == entries[c].id && entries[*o].q == entries[c].q) {
+                    for sy in &strays {
+                        menu.push(RAct::TcpStaleStray(c, *sy));
+                    }
+                }
+            }
+        }
+        if any_pending && !default_is_tick {
+            menu.push(RAct::Tick);
+        }
+        for i in 0..core.reqs.len() {
+            if core.pending(i) {
+                menu.push(RAct::Cancel(i));
+            }
+        }
+        let k = core.choose(menu.len(), "real-step");
+        let act = menu[k].clone();
+        core.transitions += 1;
+        match act {
+            RAct::Submit => {
+                let i = next_unsub.unwrap();
+                core.count("action.submit");
+                // the random draws of this request's Query are environment choices
+                RAND_CH.with(|c| *c.borrow_mut() = Some(ch.clone()));
+                if let Some(c) = conn.as_ref() {
+                    core.submit(c, i);
+                }
+                core.quiesce(&mut tr);
+                RAND_CH.with(|c| *c.borrow_mut() = None);
+            }
+            RAct::Udp(u, k, kind) => {
+                let w = waiting[u][k].clone();
+                let sn = core.next_serial();
+                let msg = mk_resp(w.id, w.q, kind, w.req, sn);
+                core.note(format!("upstream {u} -> caller {} over datagram: {kind:?}", w.req));
+                core.count(&format!("action.upstream.udp.{kind:?}"));
+                core.delivered.push(Delivered { bytes: msg.clone(), udp: true });
+                if core.pending(w.req) {
+                    core.expect.push((w.req, msg.clone()));
+                }
+                dg_feed(&dsh[u], w.sock, Ok(msg));
+            }
+            RAct::UdpStray(u, k, sy) => {
+                let w = waiting[u][k].clone();
+                let msg = core.stray(w.id, w.q, sy, w.req);
+                core.note(format!("upstream {u} -> caller {} over datagram: stray reply [{}]", w.req, sy.label()));
+                core.count(if w.prev_id.is_some() { "action.upstream.udp.stray.during-a-retransmission" } else { "action.upstream.udp.stray.first-transmission" });
+                core.delivered.push(Delivered { bytes: msg.clone(), udp: true });
+                if neutral(&msg) {
+                    // left open by the oracle
+                } else if answers(&msg, &[w.id], w.q).is_ok() {
+                    if core.pending(w.req) {
+                        core.expect.push((w.req, msg.clone()));
+                    }
+                } else if core.pending(w.req) {
+                    core.still_pending.push((w.req, format!("stray reply [{}]", sy.label())));
+                }
+                dg_feed(&dsh[u], w.sock, Ok(msg));
+            }
+            RAct::Tcp(e, kind) => {
+                let en = entries[e].clone();
+                let sn = core.next_serial();
+                let msg = mk_resp(en.id, en.q, kind, en.req, sn);
+                core.note(format!("upstream {} answers caller {} id {} on its stream with {kind:?}", en.conn, en.req, en.id));
+                core.count(&format!("action.upstream.tcp.{kind:?}"));
+                feed(&sst[en.conn], framed(&msg));
+                let healthy = s_alive[en.conn].load(Ordering::SeqCst);
+                account_frame(&mut core, &mut entries, en.conn, healthy, &msg, false);
+            }
+            RAct::TcpStray(e, sy) | RAct::TcpStaleStray(e, sy) => {
+                let en = entries[e].clone();
+                let msg = core.stray(en.id, en.q, sy, en.req);
+                let stale = matches!(act, RAct::TcpStaleStray(..));
+                core.note(format!("upstream {} sends on its stream under id {} ({} caller {}) the stray reply [{}]", en.conn, en.id, if stale { "already answered" } else { "open request of" }, en.req, sy.label()));
+                core.count(if stale { "action.upstream.tcp.stray.after-the-answer" } else { "action.upstream.tcp.stray.before-the-answer" });
+                feed(&sst[en.conn], framed(&msg));
+                let healthy = s_alive[en.conn].load(Ordering::SeqCst);
+                account_frame(&mut core, &mut entries, en.conn, healthy, &msg, false);
+            }
+            RAct::Tick => {
+                core.count("action.tick");
+                core.note(format!("virtual time advances by {UP_TICK:?}"));
+                core.excuse_all = true;
+                ticks += 1;
+                if ticks > 40 {
+                    break;
+                }
+                tokio::time::advance(UP_TICK).await;
+            }
+            RAct::Cancel(i) => core.cancel(i),
+            RAct::Finish => {
+                let c = conn.take();
+                let _ = guard(move || drop(c));
+                core.quiesce(&mut tr);
+                break;
+            }
+        }
+    }
+    core.quiesce(&mut tr);
+    core.check_spurious();
+    core.finish();
+    let t = tr.take();
+    let _ = guard(move || drop(t));
+    let _ = guard(move || drop(conn));
+}
+
+// ---------------------------------------------------------------------------
 // multi-response (AXFR / IXFR) requests on the stream transport
 // ---------------------------------------------------------------------------
 
@@ -3259,6 +4006,8 @@ enum XAct {
     SegmentUnderSingleId,
     /// one more message under the transfer's ID after it has ended
     XStale,
+    /// a question-less stray reply under the transfer's ID (stray pass)
+    XStray(Stray),
     /// the peer stays silent for just over the response timeout
     Tick,
     Eof,
@@ -3375,7 +4124,13 @@ async fn run_xfr(g: &Global, cfg: &XfrCfg, ch: Arc<Mutex<Chooser>>) {
                         let want = wire::read_name(ZONE, 0, &mut p).unwrap().0;
                         let okq = m.map(|m| (m.questions.len() == 1 && m.questions[0].qname == want && m.questions[0].qtype == qt) || (m.flags & 0xF != 0 && m.counts == [0, 0, 0, 0])).unwrap_or(false);
                         if !okq {
-                            core.violate("C15|stream_xfr|handed-message|first-message-question-mismatch".into(), format!("first message handed to the transfer's caller: {}", hex(b)));
+                            match core.stray_msgs.iter().find(|(m, _, _)| m == b).map(|(_, f, l)| (*f, l.clone())) {
+                                Some((fam, label)) => core.violate(
+                                    format!("C15|stream_xfr|stray-reply-accepted|{fam}|first-message-question-mismatch"),
+                                    format!("the stray reply [{label}] was handed to the transfer's caller as its first response: {}", hex(b)),
+                                ),
+                                None => core.violate("C15|stream_xfr|handed-message|first-message-question-mismatch".into(), format!("first message handed to the transfer's caller: {}", hex(b))),
+                            }
                         }
                     }
                 }
@@ -3459,6 +4214,15 @@ async fn run_xfr(g: &Global, cfg: &XfrCfg, ch: Arc<Mutex<Chooser>>) {
                     menu.push(XAct::XStale);
                 }
                 menu.push(XAct::XUnknownId);
+                if core.stray_mode() {
+                    // the question-less family, as the first message, between
+                    // segments, and after the end
+                    for sy in core.stray_menu() {
+                        if matches!(sy, Stray::NoQ(..)) {
+                            menu.push(XAct::XStray(sy));
+                        }
+                    }
+                }
                 if !xfr_done && !matches!(default, XAct::Tick) {
                     menu.push(XAct::Tick);
                 }
@@ -3616,6 +4380,13 @@ async fn run_xfr(g: &Global, cfg: &XfrCfg, ch: Arc<Mutex<Chooser>>) {
                 feed(&st, framed(&msg));
                 account_frame(&mut core, &mut entries, 0, healthy, &msg, false);
             }
+            XAct::XStray(sy) => {
+                clean = false;
+                core.excuse_all = true;
+                core.count(if sent_recs == 0 { "action.xfr-fault.stray.as-first-message" } else if remaining > 0 { "action.xfr-fault.stray.between-segments" } else { "action.xfr-fault.stray.after-the-last-segment" });
+                let msg = core.stray(xid, 0, sy, XFR_CALLER);
+                xfr_send(&mut core, &mut entries, &mut xfr_delivered, &st, msg, &format!("the stray reply [{}]", sy.label()));
+            }
             XAct::XStale => {
                 core.count("action.xfr-fault.message-after-end");
                 clean = false; // (it is a continuation if the transfer is still open)
@@ -3697,6 +4468,7 @@ enum Case {
     Dgram(DgramCfg),
     Multi(MultiCfg),
     Combo(ComboCfg),
+    Real(RealCfg),
     Xfr(XfrCfg),
 }
 
@@ -3707,6 +4479,7 @@ impl Case {
             Case::Dgram(c) => c.plan.len(),
             Case::Multi(c) => c.plan.len(),
             Case::Combo(c) => c.plan.len(),
+            Case::Real(c) => c.plan.len(),
             Case::Xfr(c) => 1 + c.with_single as usize,
         }
     }
@@ -3728,8 +4501,35 @@ impl Case {
                     "redundant"
                 }
             }
+            Case::Real(c) => {
+                if c.lb {
+                    "load_balancer"
+                } else {
+                    "redundant"
+                }
+            }
             Case::Xfr(_) => "stream_xfr",
         }
+    }
+    /// Is this case run in the stray-reply pass?
+    fn in_stray_pass(&self) -> bool {
+        match self {
+            Case::Stream(c) => !c.edns && c.never_answer.is_none() && c.rt_ms == ST_RT_MS && (c.idle_ms == ST_IDLE_MS || (c.plan.len() == 2 && !c.silent)),
+            Case::Dgram(c) => !c.edns && !c.udp_size_none && c.recv_size.is_none() && c.max_par > 0,
+            // coarse time: all but the variants that differ only in connect
+            // refusal or (two callers) in the datagram retry count; fine time:
+            // one datagram transmission lost by default (the stray meets the
+            // retransmission), and the stream peer that closes by default
+            Case::Multi(c) if c.fine => c.plan.len() == 1 && ((c.dgram_first && c.udp_lost == 1 && !c.tcp_silent) || (!c.dgram_first && c.tcp_close_default)),
+            Case::Multi(c) => !c.allow_refuse && !(c.dgram_first && c.plan.len() == 2 && c.udp_retries == 1),
+            Case::Combo(_) => false,
+            Case::Real(_) => true,
+            Case::Xfr(_) => true,
+        }
+    }
+    /// ... and in no other pass?
+    fn stray_pass_only(&self) -> bool {
+        matches!(self, Case::Real(_))
     }
     fn cfg_json(&self) -> Value {
         match self {
@@ -3737,6 +4537,7 @@ impl Case {
             Case::Dgram(c) => c.json(),
             Case::Multi(c) => c.json(),
             Case::Combo(c) => c.json(),
+            Case::Real(c) => c.json(),
             Case::Xfr(c) => c.json(),
         }
     }
@@ -3756,6 +4557,9 @@ fn all_cases() -> Vec<Case> {
     for c in combo_cfgs() {
         cases.push(Case::Combo(c));
     }
+    for c in real_cfgs() {
+        cases.push(Case::Real(c));
+    }
     for with_single in [false, true] {
         cases.push(Case::Xfr(XfrCfg { shape: 0, with_single, client_serial: None }));
         // IXFR: the requester has no SOA / is ahead of (9), level with (7), behind (5) the server (7)
@@ -3774,7 +4578,8 @@ fn run_case(g: &Global, case: &Case, ch: &mut Chooser) {
         let prefix = shared.lock().unwrap().clone();
         let all_cuts = g.all_cuts.load(Ordering::Relaxed);
         let full_shapes = g.full_shapes.load(Ordering::Relaxed);
-        g.wd.enter(move || json!({"transport": case.tname(), "cfg": case.cfg_json(), "all_cuts": all_cuts, "full_shapes": full_shapes, "choices_prefix_debug": format!("{prefix:?}"), "note": "the execution that follows this choice prefix with default choices did not terminate"}));
+        let stray_mode = g.stray_mode.load(Ordering::Relaxed);
+        g.wd.enter(move || json!({"transport": case.tname(), "cfg": case.cfg_json(), "all_cuts": all_cuts, "full_shapes": full_shapes, "stray_mode": stray_mode, "choices_prefix_debug": format!("{prefix:?}"), "note": "the execution that follows this choice prefix with default choices did not terminate"}));
     }
     let rt = tokio::runtime::Builder::new_current_thread().enable_time().start_paused(true).build().expect("runtime");
     let sh2 = shared.clone();
@@ -3784,6 +4589,7 @@ fn run_case(g: &Global, case: &Case, ch: &mut Chooser) {
             Case::Dgram(c) => run_dgram(g, c, sh2).await,
             Case::Multi(c) => run_multi(g, c, sh2).await,
             Case::Combo(c) => run_combo(g, c, sh2).await,
+            Case::Real(c) => run_real(g, c, sh2).await,
             Case::Xfr(c) => run_xfr(g, c, sh2).await,
         }
     });
@@ -3902,6 +4708,25 @@ fn combo_cfgs() -> Vec<ComboCfg> {
     v
 }
 
+fn real_cfgs() -> Vec<RealCfg> {
+    let mut v = Vec::new();
+    for lb in [false, true] {
+        for stream_ups in [false, true] {
+            for defer in [false, true] {
+                for plan in [vec![0], vec![0, 1]] {
+                    // retransmissions of the datagram upstreams: with one caller
+                    let retries: &[u8] = if !stream_ups && plan.len() == 1 { &[0, 1] } else { &[0] };
+                    for &udp_retries in retries {
+                        v.push(RealCfg { lb, plan: plan.clone(), stream_ups, defer, udp_retries, silent: false });
+                    }
+                }
+            }
+            v.push(RealCfg { lb, plan: vec![0], stream_ups, defer: true, udp_retries: 1, silent: true });
+        }
+    }
+    v
+}
+
 fn multi_cfgs() -> Vec<MultiCfg> {
     let mut v = Vec::new();
     // dgram_stream
@@ -3961,12 +4786,14 @@ fn main() {
         thorough,
         all_cuts: AtomicBool::new(false),
         full_shapes: AtomicBool::new(true),
+        stray_mode: AtomicBool::new(false),
         stats: Stats::new(),
         states: Stats::new(),
         transitions: AtomicU64::new(0),
         outcomes: Stats::new(),
         verbose: ctx.replay.is_some(),
         samples: Mutex::new(BTreeMap::new()),
+        sample_threshold: AtomicU64::new(u64::MAX),
         wd: Watchdog::start(ctx.clone(), std::time::Duration::from_secs(30), |d| {
             format!("C15|{}|hang|execution-does-not-terminate", d["transport"].as_str().unwrap_or("?"))
         }),
@@ -3977,6 +4804,7 @@ fn main() {
         let case = &v["case"];
         g.all_cuts.store(case["all_cuts"].as_bool().unwrap_or(false), Ordering::Relaxed);
         g.full_shapes.store(case["full_shapes"].as_bool().unwrap_or(true), Ordering::Relaxed);
+        g.stray_mode.store(case["stray_mode"].as_bool().unwrap_or(false), Ordering::Relaxed);
         let choices: Vec<u32> = case["choices"].as_array().expect("choices").iter().map(|c| c.as_u64().unwrap() as u32).collect();
         let t = case["transport"].as_str().unwrap_or("");
         let want = case["cfg"].to_string();
@@ -3998,6 +4826,12 @@ fn main() {
     let mut per_cfg = Vec::new();
     let mut capped_any = false;
     let cases = all_cases();
+    // debugging aid: C15_ONLY=<substring of "<transport> <case debug text>"> runs
+    // only the matching cases (the run is then reported as not exhaustive)
+    let only: Option<String> = std::env::var("C15_ONLY").ok().filter(|s| !s.is_empty());
+    if only.is_some() {
+        capped_any = true;
+    }
     // Pass = (all cut points?, deviation bound, callers min..=max, transports
     // other than stream too?, full reply grammar?).
     // quick:    every cut point, full grammar, <= 2 deviations, everything up to 3 callers;
@@ -4006,34 +4840,61 @@ fn main() {
     //           handful of cut points, classic replies, <= 3 deviations, everything up to 3 callers;
     //           every cut point, classic replies, <= 3 deviations, stream with <= 2 callers;
     //           handful of cut points, full grammar, <= 3 deviations, everything with 1 caller.
-    let passes: Vec<(bool, usize, usize, usize, bool, bool)> = if thorough {
+    // The stray-reply pass (last flag): the menus offer the stray alphabet at
+    // every delivery point next to a reduced set of classic deviations, for
+    // the cases selected by Case::in_stray_pass; <= 2 deviations quick, <= 3 thorough.
+    let mut passes: Vec<(bool, usize, usize, usize, bool, bool, bool)> = if thorough {
         vec![
-            (true, 2, 1, 3, true, true),
-            (false, 2, 4, 8, false, false),
-            (false, 3, 1, 3, true, false),
-            (true, 3, 1, 2, false, false),
-            (false, 3, 1, 1, true, true),
+            (true, 2, 1, 3, true, true, false),
+            (false, 2, 4, 8, false, false, false),
+            (false, 3, 1, 3, true, false, false),
+            (true, 3, 1, 2, false, false, false),
+            (false, 3, 1, 1, true, true, false),
         ]
     } else {
-        vec![(true, 2, 1, 3, true, true), (false, 2, 4, 8, false, false)]
+        vec![(true, 2, 1, 3, true, true, false), (false, 2, 4, 8, false, false, false)]
     };
-    for (all_cuts, bound, min_callers, max_callers, others, full_shapes) in passes.into_iter() {
+    passes.push((false, 2, 1, 8, true, true, true));
+    if thorough {
+        passes.push((false, 3, 1, 2, true, true, true));
+    }
+    for (all_cuts, bound, min_callers, max_callers, others, full_shapes, stray_mode) in passes.into_iter() {
         g.all_cuts.store(all_cuts, Ordering::Relaxed);
         g.full_shapes.store(full_shapes, Ordering::Relaxed);
-        for case in &cases {
-            let n = case.callers();
-            match case {
-                _ if n < min_callers || n > max_callers => continue,
-                Case::Stream(_) => {}
-                _ if others => {}
-                _ => continue,
-            }
+        g.stray_mode.store(stray_mode, Ordering::Relaxed);
+        let selected: Vec<&Case> = cases
+            .iter()
+            .filter(|case| {
+                let n = case.callers();
+                match case {
+                    _ if only.as_ref().map(|o| !format!("{} {case:?}", case.tname()).contains(o.as_str())).unwrap_or(false) => false,
+                    _ if n < min_callers || n > max_callers => false,
+                    _ if stray_mode != case.in_stray_pass() && (stray_mode || case.stray_pass_only()) => false,
+                    Case::Stream(_) => true,
+                    _ => others,
+                }
+            })
+            .collect();
+        // the cases of a pass run side by side (each one is explored level by
+        // level, which alone leaves workers idle at every level boundary)
+        use rayon::prelude::*;
+        let results: Vec<(Value, bool)> = selected
+            .par_iter()
+            .map(|case| {
+                let case: &Case = case;
             let t0 = std::time::Instant::now();
             let (es, capped) = explore(bound, 200_000_000, |ch| run_case(&g, case, ch));
+            let v = (json!({"case": format!("{case:?}"), "stray_reply_pass": stray_mode, "all_cut_points": all_cuts, "full_reply_grammar": full_shapes, "deviation_bound": bound, "executions": es.executions, "per_deviation_count": es.per_bound, "choice_points": es.choice_points, "max_trace": es.max_trace, "capped": capped, "wall_s": t0.elapsed().as_secs_f64()}), capped);
+            eprintln!("{case:?} all_cuts={all_cuts} stray={stray_mode} bound={bound}: {} executions {:?} in {:.1}s", es.executions, es.per_bound, t0.elapsed().as_secs_f64());
+                v
+            })
+            .collect();
+        for (v, capped) in results {
             capped_any |= capped;
-            per_cfg.push(json!({"case": format!("{case:?}"), "all_cut_points": all_cuts, "full_reply_grammar": full_shapes, "deviation_bound": bound, "executions": es.executions, "per_deviation_count": es.per_bound, "choice_points": es.choice_points, "max_trace": es.max_trace, "capped": capped, "wall_s": t0.elapsed().as_secs_f64()}));
-            eprintln!("{case:?} all_cuts={all_cuts} bound={bound}: {} executions {:?} in {:.1}s", es.executions, es.per_bound, t0.elapsed().as_secs_f64());
+            per_cfg.push(v);
         }
+        rayon::broadcast(|_| flush_local_counts(&g));
+        flush_local_counts(&g);
     }
     let evals = g.stats.evals();
     ctx.finish(
